@@ -1,7 +1,32 @@
-(* K11 -- proofs about ImportsModel.v *)
+(* K11 -- proofs about ImportsModel.v (C18). *)
 From Coq Require Import List Arith Bool PeanoNat Lia Permutation.
 Import ListNotations.
 Require Import Pyrefact.ImportsModel.
+
+(* ------------------------------------------------------------------------------------------- *)
+(* basic facts                                                                                   *)
+
+Lemma mem_In : forall n l, mem n l = true <-> In n l.
+Proof.
+  intros n l. unfold mem. rewrite existsb_exists. split.
+  - intros [x [Hin Heq]]. apply Nat.eqb_eq in Heq. subst. exact Hin.
+  - intros Hin. exists n. split; [exact Hin|apply Nat.eqb_refl].
+Qed.
+
+Lemma itgt_eqb_eq : forall a b, itgt_eqb a b = true <-> a = b.
+Proof.
+  intros [m x|m|h] [m' x'|m'|h']; cbn [itgt_eqb]; split; intros H; try discriminate; try congruence.
+  - apply andb_true_iff in H. destruct H as [H1 H2].
+    apply Nat.eqb_eq in H1. apply Nat.eqb_eq in H2. subst. reflexivity.
+  - inversion H. subst. rewrite !Nat.eqb_refl. reflexivity.
+  - apply Nat.eqb_eq in H. subst. reflexivity.
+  - inversion H. apply Nat.eqb_refl.
+  - apply Nat.eqb_eq in H. subst. reflexivity.
+  - inversion H. apply Nat.eqb_refl.
+Qed.
+
+(* ------------------------------------------------------------------------------------------- *)
+(* T18.2  the binding environment depends only on the SET of bindings when they are coherent    *)
 
 Lemma lookup_last_app : forall l1 l2 a,
   lookup_last (l1 ++ l2) a =
@@ -12,3 +37,302 @@ Proof.
   - rewrite IH. destruct (lookup_last l2 a); [reflexivity|].
     destruct (lookup_last l1 a); reflexivity.
 Qed.
+
+Lemma lookup_last_In : forall l a t, lookup_last l a = Some t -> In (a, t) l.
+Proof.
+  induction l as [|[k t0] l IH]; intros a t H; cbn [lookup_last] in H; [discriminate|].
+  destruct (lookup_last l a) eqn:E.
+  - inversion H. subst. right. apply IH. exact E.
+  - destruct (k =? a) eqn:Ek; [|discriminate].
+    apply Nat.eqb_eq in Ek. inversion H. subst. left. reflexivity.
+Qed.
+
+Lemma lookup_last_None : forall l a, lookup_last l a = None -> forall t, ~ In (a, t) l.
+Proof.
+  induction l as [|[k t0] l IH]; intros a H t Hin; cbn [lookup_last] in H; [exact Hin|].
+  destruct (lookup_last l a) eqn:E; [discriminate|].
+  destruct (k =? a) eqn:Ek; [discriminate|].
+  destruct Hin as [Heq|Hin].
+  - inversion Heq. subst. rewrite Nat.eqb_refl in Ek. discriminate.
+  - exact (IH a E t Hin).
+Qed.
+
+Lemma coherent_binds_spec : forall l,
+  coherent_binds l = true ->
+  forall a t t', In (a, t) l -> In (a, t') l -> t = t'.
+Proof.
+  intros l H a t t' H1 H2. unfold coherent_binds in H.
+  rewrite forallb_forall in H. specialize (H _ H1).
+  rewrite forallb_forall in H. specialize (H _ H2).
+  cbn [fst snd] in H. rewrite Nat.eqb_refl in H. cbn [negb orb] in H.
+  apply itgt_eqb_eq. exact H.
+Qed.
+
+(* the key lemma: per name, only the set of (name, target) pairs matters *)
+Lemma env_of_binding_set : forall B B' a,
+  coherent_binds B = true ->
+  (forall t, In (a, t) B <-> In (a, t) B') ->
+  lookup_last B' a = lookup_last B a.
+Proof.
+  intros B B' a Hc Hset.
+  destruct (lookup_last B a) as [t|] eqn:E.
+  - pose proof (lookup_last_In _ _ _ E) as Hin.
+    destruct (lookup_last B' a) as [t'|] eqn:E'.
+    + pose proof (lookup_last_In _ _ _ E') as Hin'.
+      apply Hset in Hin'. f_equal. exact (coherent_binds_spec B Hc a t' t Hin' Hin).
+    + exfalso. apply Hset in Hin. exact (lookup_last_None _ _ E' t Hin).
+  - destruct (lookup_last B' a) as [t'|] eqn:E'; [|reflexivity].
+    exfalso. pose proof (lookup_last_In _ _ _ E') as Hin'. apply Hset in Hin'.
+    exact (lookup_last_None _ _ E t' Hin').
+Qed.
+
+Definition same_binds (l l' : list stmt) : Prop :=
+  forall p, In p (all_binds l) <-> In p (all_binds l').
+
+Theorem env_same_binds : forall l l' a,
+  coherent l = true -> same_binds l l' -> env l' a = env l a.
+Proof.
+  intros l l' a Hc Hs. unfold env. apply env_of_binding_set; [exact Hc|].
+  intros t. apply Hs.
+Qed.
+
+(* ---- sorting is a permutation *)
+Lemma insert_by_perm : forall X (key : X -> list nat) x l, Permutation (insert_by key x l) (x :: l).
+Proof.
+  intros X key x l. induction l as [|y l IH]; cbn [insert_by]; [apply Permutation_refl|].
+  destruct (lex_le (key x) (key y)); [apply Permutation_refl|].
+  apply perm_trans with (y :: x :: l); [apply perm_skip; exact IH|apply perm_swap].
+Qed.
+
+Lemma sort_by_perm : forall X (key : X -> list nat) l, Permutation (sort_by key l) l.
+Proof.
+  intros X key l. unfold sort_by. induction l as [|x l IH]; cbn [fold_right]; [apply perm_nil|].
+  apply perm_trans with (x :: fold_right (insert_by key) [] l); [apply insert_by_perm|].
+  apply perm_skip. exact IH.
+Qed.
+
+Lemma perm_flat_map : forall X Y (f : X -> list Y) l l',
+  Permutation l l' -> Permutation (flat_map f l) (flat_map f l').
+Proof.
+  intros X Y f l l' H. induction H; cbn [flat_map].
+  - apply perm_nil.
+  - apply Permutation_app_head. exact IHPermutation.
+  - rewrite !app_assoc. apply Permutation_app_tail. apply Permutation_app_comm.
+  - eapply perm_trans; eassumption.
+Qed.
+
+Lemma sort_stmts_perm : forall l, Permutation (sort_stmts l) l.
+Proof.
+  intros l. unfold sort_stmts. destruct l as [|a [|b l]]; try apply Permutation_refl.
+  apply sort_by_perm.
+Qed.
+
+Lemma same_binds_of_perm : forall l l',
+  Permutation (all_binds l') (all_binds l) -> same_binds l l'.
+Proof.
+  intros l l' H p. split; intros Hin.
+  - eapply Permutation_in; [apply Permutation_sym; exact H|exact Hin].
+  - eapply Permutation_in; [exact H|exact Hin].
+Qed.
+
+Theorem sort_stmts_env : forall l a, coherent l = true -> env (sort_stmts l) a = env l a.
+Proof.
+  intros l a Hc. apply env_same_binds; [exact Hc|].
+  apply same_binds_of_perm. unfold all_binds. apply perm_flat_map. apply sort_stmts_perm.
+Qed.
+
+(* order dependence: `from 4 import 2; from 0 import 2` (module 4 > module 0) *)
+Definition sort_witness : list stmt := [SFrom false 4 [(2, None)]; SFrom false 0 [(2, None)]].
+Theorem sort_stmts_refuted : exists l a, env (sort_stmts l) a <> env l a.
+Proof. exists sort_witness, 2. vm_compute. discriminate. Qed.
+
+(* ---- alias normalisation / sorting inside a statement *)
+Lemma fnorm_bind : forall m al, (fbound (fnorm al), IAttr m (fst (fnorm al))) = (fbound al, IAttr m (fst al)).
+Proof.
+  intros m [x [a|]]; unfold fnorm, fbound; cbn [fst snd]; [|reflexivity].
+  destruct (a =? x) eqn:E; cbn [fst snd]; [|reflexivity].
+  apply Nat.eqb_eq in E. subst. reflexivity.
+Qed.
+
+Lemma inorm_bind : forall al, (ibound (inorm al), itarget (inorm al)) = (ibound al, itarget al).
+Proof.
+  intros [[[m [a|]] h] s]; unfold inorm, ibound, itarget, ias, imod, ihead, istd; cbn [fst snd]; [|reflexivity].
+  destruct (a =? m) eqn:E; cbn [fst snd]; [reflexivity|]. rewrite E. reflexivity.
+Qed.
+
+Lemma map_fnorm_binds : forall m als,
+  map (fun al => (fbound al, IAttr m (fst al))) (map fnorm als) =
+  map (fun al => (fbound al, IAttr m (fst al))) als.
+Proof.
+  intros m als. rewrite map_map. apply map_ext. intros al. apply fnorm_bind.
+Qed.
+
+Lemma map_inorm_binds : forall als,
+  map (fun al => (ibound al, itarget al)) (map inorm als) = map (fun al => (ibound al, itarget al)) als.
+Proof.
+  intros als. rewrite map_map. apply map_ext. intros al. apply inorm_bind.
+Qed.
+
+Lemma sort_aliases_stmt_perm : forall s, Permutation (stmt_binds (sort_aliases_stmt s)) (stmt_binds s).
+Proof.
+  intros [std m als|als]; cbn [sort_aliases_stmt stmt_binds].
+  - rewrite <- (map_fnorm_binds m als). apply Permutation_map. apply sort_by_perm.
+  - rewrite <- (map_inorm_binds als). apply Permutation_map. apply sort_by_perm.
+Qed.
+
+Lemma perm_flat_map_pointwise : forall X Y (f f' : X -> list Y) l,
+  (forall x, Permutation (f' x) (f x)) -> Permutation (flat_map f' l) (flat_map f l).
+Proof.
+  intros X Y f f' l H. induction l as [|x l IH]; cbn [flat_map]; [apply perm_nil|].
+  apply Permutation_app; [apply H|exact IH].
+Qed.
+
+Theorem sort_aliases_env : forall l a, coherent l = true -> env (sort_aliases l) a = env l a.
+Proof.
+  intros l a Hc. apply env_same_binds; [exact Hc|].
+  apply same_binds_of_perm. unfold all_binds, sort_aliases. rewrite flat_map_concat_map, map_map.
+  rewrite <- flat_map_concat_map. apply perm_flat_map_pointwise. apply sort_aliases_stmt_perm.
+Qed.
+
+Definition alias_witness : list stmt := [SFrom false 0 [(4, Some 6); (2, Some 6)]].
+Theorem sort_aliases_refuted : exists l a, env (sort_aliases l) a <> env l a.
+Proof. exists alias_witness, 6. vm_compute. discriminate. Qed.
+
+(* ---- remove_unused_imports *)
+Lemma filter_In_pair : forall X (p : X -> bool) (f : X -> name * itgt) als a t,
+  (forall al, fst (f al) = a -> p al = true) ->
+  (In (a, t) (map f (filter p als)) <-> In (a, t) (map f als)).
+Proof.
+  intros X p f als a t Hp. rewrite !in_map_iff. split.
+  - intros [al [Heq Hin]]. apply filter_In in Hin. exists al. tauto.
+  - intros [al [Heq Hin]]. exists al. split; [exact Heq|]. apply filter_In. split; [exact Hin|].
+    apply Hp. rewrite Heq. reflexivity.
+Qed.
+
+Lemma remove_unused_stmt_binds : forall used s a t,
+  mem a used = true ->
+  (In (a, t) (flat_map stmt_binds (remove_unused_stmt used s)) <-> In (a, t) (stmt_binds s)).
+Proof.
+  intros used s a t Hu. destruct s as [std m als|als]; cbn [remove_unused_stmt].
+  - destruct (length (filter (fun al => mem (fbound al) used) als) =? length als); [cbn [flat_map]; rewrite app_nil_r; tauto|].
+    set (kept := filter (fun al => mem (fbound al) used) als).
+    assert (Hk : In (a, t) (map (fun al => (fbound al, IAttr m (fst al))) kept) <->
+                 In (a, t) (stmt_binds (SFrom std m als))).
+    { cbn [stmt_binds]. apply filter_In_pair. intros al Hal. cbn [fst] in Hal. rewrite Hal. exact Hu. }
+    destruct kept as [|k0 kept'] eqn:Ek.
+    + cbn [flat_map]. cbn [map] in Hk. exact Hk.
+    + cbn [flat_map stmt_binds]. rewrite app_nil_r. rewrite <- Hk.
+      split; intros H.
+      * eapply Permutation_in; [|exact H]. apply Permutation_map. apply sort_by_perm.
+      * eapply Permutation_in; [|exact H]. apply Permutation_map. apply Permutation_sym. apply sort_by_perm.
+  - destruct (length (filter (fun al => mem (ibound al) used) als) =? length als); [cbn [flat_map]; rewrite app_nil_r; tauto|].
+    set (kept := filter (fun al => mem (ibound al) used) als).
+    assert (Hk : In (a, t) (map (fun al => (ibound al, itarget al)) kept) <->
+                 In (a, t) (stmt_binds (SImport als))).
+    { cbn [stmt_binds]. apply filter_In_pair. intros al Hal. cbn [fst] in Hal. rewrite Hal. exact Hu. }
+    destruct kept as [|k0 kept'] eqn:Ek.
+    + cbn [flat_map]. cbn [map] in Hk. exact Hk.
+    + cbn [flat_map stmt_binds]. rewrite app_nil_r. rewrite <- Hk.
+      split; intros H.
+      * eapply Permutation_in; [|exact H]. apply Permutation_map. apply sort_by_perm.
+      * eapply Permutation_in; [|exact H]. apply Permutation_map. apply Permutation_sym. apply sort_by_perm.
+Qed.
+
+Lemma flat_map_flat_map : forall X Y Z (f : X -> list Y) (g : Y -> list Z) l,
+  flat_map g (flat_map f l) = flat_map (fun x => flat_map g (f x)) l.
+Proof.
+  intros X Y Z f g l. induction l as [|x l IH]; cbn [flat_map]; [reflexivity|].
+  rewrite flat_map_app, IH. reflexivity.
+Qed.
+
+Lemma in_flat_map_pointwise : forall X Y (f f' : X -> list Y) l y,
+  (forall x, In y (f' x) <-> In y (f x)) -> (In y (flat_map f' l) <-> In y (flat_map f l)).
+Proof.
+  intros X Y f f' l y H. rewrite !in_flat_map. split; intros [x [Hx Hy]]; exists x; split; auto; apply H; exact Hy.
+Qed.
+
+Theorem remove_unused_env : forall used l a,
+  coherent l = true -> In a used -> env (remove_unused used l) a = env l a.
+Proof.
+  intros used l a Hc Hu. unfold env. apply env_of_binding_set; [exact Hc|].
+  intros t. unfold all_binds, remove_unused. rewrite flat_map_flat_map. symmetry.
+  apply in_flat_map_pointwise. intros s. apply remove_unused_stmt_binds. apply mem_In. exact Hu.
+Qed.
+
+(* a partially used statement is re-emitted with its aliases sorted: `from 0 import 4 as 6, 2 as 6, 8`
+   with 8 unused becomes `from 0 import 2 as 6, 4 as 6` *)
+Definition unused_witness : list stmt := [SFrom false 0 [(4, Some 6); (2, Some 6); (8, None)]].
+Theorem remove_unused_refuted : exists used l a, In a used /\ env (remove_unused used l) a <> env l a.
+Proof. exists [6], unused_witness, 6. split; [left; reflexivity|]. vm_compute. discriminate. Qed.
+
+(* ---- _breakout_stacked_imports *)
+Lemma dedup_by_In : forall X (eqb : X -> X -> bool) (l : list X) x,
+  (forall a b, eqb a b = true -> a = b) ->
+  (In x (dedup_by eqb l) <-> In x l).
+Proof.
+  intros X eqb l x Heq. induction l as [|y l IH]; cbn [dedup_by]; [tauto|].
+  destruct (existsb (eqb y) l) eqn:E.
+  - rewrite IH. split; [intros H; right; exact H|].
+    intros [H|H]; [|exact H]. subst. apply existsb_exists in E. destruct E as [z [Hz Hyz]].
+    apply Heq in Hyz. subst. exact Hz.
+  - cbn [In]. rewrite IH. tauto.
+Qed.
+
+Lemma opt_eqb_eq : forall (a b : option name),
+  match a, b with None, None => true | Some x, Some y => x =? y | _, _ => false end = true -> a = b.
+Proof.
+  intros [x|] [y|] H; try discriminate; [|reflexivity]. apply Nat.eqb_eq in H. subst. reflexivity.
+Qed.
+
+Lemma ialias_eqb_eq : forall a b, ialias_eqb a b = true -> a = b.
+Proof.
+  intros [[[m o] h] s] [[[m' o'] h'] s'] H. unfold ialias_eqb, imod, ias, ihead, istd in H. cbn [fst snd] in H.
+  apply andb_true_iff in H. destruct H as [H Ho].
+  apply andb_true_iff in H. destruct H as [H Hs].
+  apply andb_true_iff in H. destruct H as [Hm Hh].
+  apply Nat.eqb_eq in Hm. apply Nat.eqb_eq in Hh. apply eqb_prop in Hs. apply opt_eqb_eq in Ho.
+  subst. reflexivity.
+Qed.
+
+Lemma falias_eqb_eq : forall a b, falias_eqb a b = true -> a = b.
+Proof.
+  intros [x o] [x' o'] H. unfold falias_eqb in H. cbn [fst snd] in H.
+  apply andb_true_iff in H. destruct H as [Hx Ho].
+  apply Nat.eqb_eq in Hx. apply opt_eqb_eq in Ho. subst. reflexivity.
+Qed.
+
+Lemma breakout_stmt_binds : forall s p,
+  In p (flat_map stmt_binds (breakout_stmt s)) <-> In p (stmt_binds s).
+Proof.
+  intros s p. destruct s as [std m als|als]; cbn [breakout_stmt]; [cbn [flat_map]; rewrite app_nil_r; tauto|].
+  destruct als as [|a1 [|a2 als]]; try (cbn [flat_map]; rewrite app_nil_r; tauto).
+  set (L := a1 :: a2 :: als).
+  rewrite flat_map_concat_map, map_map, <- flat_map_concat_map.
+  cbn [stmt_binds].
+  assert (H1 : forall l, In p (flat_map (fun al => stmt_binds (SImport [inorm al])) l) <->
+                         In p (map (fun al => (ibound al, itarget al)) l)).
+  { intros l. rewrite in_flat_map, in_map_iff. split.
+    - intros [al [Hal Hp]]. cbn [stmt_binds map In] in Hp. destruct Hp as [Hp|[]].
+      exists al. split; [|exact Hal]. rewrite <- Hp. symmetry. apply inorm_bind.
+    - intros [al [Hp Hal]]. exists al. split; [exact Hal|]. cbn [stmt_binds map In]. left.
+      rewrite <- Hp. apply inorm_bind. }
+  rewrite H1. rewrite !in_map_iff. split.
+  - intros [al [Hp Hal]]. exists al. split; [exact Hp|].
+    apply (Permutation_in _ (sort_by_perm _ ikey _)) in Hal.
+    apply (dedup_by_In _ ialias_eqb L al ialias_eqb_eq). exact Hal.
+  - intros [al [Hp Hal]]. exists al. split; [exact Hp|].
+    apply (Permutation_in _ (Permutation_sym (sort_by_perm _ ikey _))).
+    apply (dedup_by_In _ ialias_eqb L al ialias_eqb_eq). exact Hal.
+Qed.
+
+Theorem breakout_env : forall l a, coherent l = true -> env (breakout l) a = env l a.
+Proof.
+  intros l a Hc. apply env_same_binds; [exact Hc|].
+  intros p. unfold all_binds, breakout. rewrite flat_map_flat_map. symmetry.
+  apply in_flat_map_pointwise. intros s. apply breakout_stmt_binds.
+Qed.
+
+(* `import 4 as 6, 2 as 6` is split in sorted order: 6 ends up bound to module 4 instead of 2 *)
+Definition breakout_witness : list stmt := [SImport [(4, Some 6, 4, false); (2, Some 6, 2, false)]].
+Theorem breakout_refuted : exists l a, env (breakout l) a <> env l a.
+Proof. exists breakout_witness, 6. vm_compute. discriminate. Qed.
